@@ -28,6 +28,7 @@ NOTES = {
  'C05-b': 'demo.py invalidated by the F1/F14 repair (its scenario now shows known finding F0 without the patch too): confirmed by replay instead',
  'C06-b': 'demo.py relies on F23 to end a run loop: confirmed by replay instead (the check reaches the restart through an injected run-loop cancellation)',
  'C10-c': 'demo.py cannot see the defect since the F5b repair completes the interrupted children: confirmed by replay instead (`not_cancelled_at_deadline`)',
+ 'C03-e': 'fifth round (after the repairs; C03, C05, C08, C10 had lost seeds to retirement). Missed at first: C03 had no raising handlers on parallel buses -> `errors_parallel` and `parallel` added to the C03 profiles (silent on the unchanged tree over seed blocks 0-8)',
  'C04-c': 'missed at first: C04 profiles had no handler timeouts -> `timeouts` added to C04 (and F5b recognised there)',
 }
 out = ['| seeded id | property | change (by an independent sub-agent) | needs | caught by (quick check: clauses) | note |', '|---|---|---|---|---|---|']
